@@ -98,6 +98,17 @@ InitCheck ==
               ELSE IF succ = {} THEN {<<0, "no-successor", {"init"}>>}
               ELSE {<<0, "diff", DiffOf(CHOOSE T \in succ : TRUE, st)>>}]
 
+\* C14 "every event scheduled before T is executed" needs the engine's cache of next event dates to be TRUE:
+\* the date cached for each node must be the earliest date at which something is due there, recomputed by the
+\* specification's update_next_event_date from the logged configuration itself (customers' end, reneging and
+\* class-change dates, server end dates, timetable).  An event missing from the cache would silently never run.
+TrueNed(L, n) ==
+    LET L1 == IF Dynamic(L) THEN FindNextClassChange(L, n) ELSE L
+    IN UpdateNextEvent(L1, n).nodes[n].ned
+
+CacheFails(L) ==
+    Chk("C14.every-due-event-is-scheduled", \A n \in 1..L.cfg.N : TrueNed(L, n) = L.nodes[n].ned)
+
 StepEvent ==
     /\ tid <= NT
     /\ l < Len(Tr.events)
@@ -112,7 +123,8 @@ StepEvent ==
            match == {T \in succ : DiffOf(T, e) = {}}
            obs2 == ObsAfter(cfg, pre, e, obs)
            i0 == IF l = 0 THEN InitCheck ELSE [f |-> {}, d |-> {}]
-           newfails == (IF isPause THEN F_C16_pause(cfg, pre, e) ELSE StepFails(cfg, pre, e, obs))
+           newfails == (IF isPause THEN F_C16_pause(cfg, pre, e)
+                        ELSE StepFails(cfg, pre, e, obs) \cup CacheFails(FromLog(e, cfg, obs2)))
                        \cup InvFails(cfg, e, [gb |-> obs2.gb, dg |-> Range(e.dg)])
            dr == IF ~enabled THEN {<<l + 1, "not-enabled", {e.ev.kind}>>}
                  ELSE IF succ = {} THEN {<<l + 1, "no-successor", {e.ev.kind}>>}
